@@ -230,6 +230,10 @@ def resolve_names(pas, eqs, integrator):
     return n
 
 
+class NonFinite(Exception):
+    pass
+
+
 def one_vector(cls, kw, dim, with_solids, clean, level, mon):
     """level: 1 = name resolution, 2 = + code generation, 3 = + compile and
     three steps."""
@@ -285,14 +289,36 @@ def one_vector(cls, kw, dim, with_solids, clean, level, mon):
                     pa.properties[p].get_c_type() == 'double':
                 pa.get(p, only_real_particles=False)[:] = pa.get(
                     p[:-1], only_real_particles=False)
+    # ... and the wall's number density where the scheme leaves it to the
+    # user (the TVF / EDAC examples set solid.V = 1/volume by hand)
+    for pa in pas:
+        if pa.name == 'solid' and 'V' in pa.properties and \
+                not pa.get('V', only_real_particles=False).any():
+            pa.get('V', only_real_particles=False)[:] = pa.get(
+                'rho', only_real_particles=False) / pa.get(
+                    'm', only_real_particles=False)
     try:
         with contextlib.redirect_stdout(buf):
             nn = LinkedListNNPS(dim=dim, particles=pas,
                                 radius_scale=solver.kernel.radius_scale)
             solver.setup(pas, eqs, nn, solver.kernel)
+
+            def finite_or_stop(t, dt, stage):
+                # positions that went NaN would crash the neighbour search
+                # at the next update: stop at the stage that produced them
+                for pa in pas:
+                    for p in ('x', 'y', 'z', 'h'):
+                        if not np.all(np.isfinite(pa.get(
+                                p, only_real_particles=False))):
+                            raise NonFinite('%s.%s after stage %d of the '
+                                            'step at t=%g' % (pa.name, p,
+                                                              stage, t))
+            solver.add_post_stage_callback(finite_or_stop)
             solver.set_disable_output(True)
             solver.set_max_steps(3)
             solver.solve(show_progress=False)
+    except NonFinite as e:
+        raise Bad('non-finite', 'non-finite %s' % e)
     except SystemExit:
         raise Bad('compile-failed', buf.getvalue()[-1500:])
     except ModuleNotFoundError as e:
@@ -337,6 +363,17 @@ def work(item):
         return dict(evaluations=0, counters=mon)
     vecs, total, exhaustive = vectors(cls, item['dim'], item['solids'], rng,
                                       item['budget'])
+    if item.get('only_run') and item.get('rich'):
+        # compile-and-run of a vector with every two-valued numeric option
+        # (viscosity, artificial viscosity, damping, gravity ...) switched
+        # on, so that the equations those options add are executed too
+        base, fac = factors(cls, item['dim'], item['solids'])
+        rich = dict(base)
+        for k_ in sorted(fac):
+            if k_ in NUM2 and k_ not in ('pb',):
+                rich[k_] = fac[k_][-1]
+        vecs = [rich] + [v_ for v_ in vecs if v_ != rich][
+            :max(0, item['n_run'] - 1)]
     mon['grid_total'] = total
     mon['grid_exhaustive_parts'] = int(exhaustive)
     nl2 = item['n_codegen']
@@ -403,6 +440,11 @@ def run(tier):
         items.append(dict(seed=seed, scheme=n, dim=2, solids=False,
                           budget=1 if quick else 6, n_codegen=0,
                           n_run=1 if quick else 6, only_run=True,
+                          flavour='plain', timeout=3000))
+    for n in names:
+        items.append(dict(seed=seed, scheme=n, dim=2, solids=True,
+                          budget=1 if quick else 6, n_codegen=0,
+                          n_run=1 if quick else 6, only_run=True, rich=True,
                           flavour='plain', timeout=3000))
     for n in names:
         for dim in (1, 2, 3):
